@@ -334,12 +334,12 @@ impl NodeRecordStore {
             timestamp: self.timestamp,
         };
 
-        spawn(async move {
-            if let Ok(mut file) = fs::File::create(file_path) {
-                let mut serialiser = rmp_serde::encode::Serializer::new(&mut file);
-                let _ = historic_quoting_metrics.serialize(&mut serialiser);
-            }
-        });
+        // Written synchronously: flushes issued in order must reach the file in order. As
+        // independently spawned tasks an older count could overwrite a newer one.
+        if let Ok(mut file) = fs::File::create(file_path) {
+            let mut serialiser = rmp_serde::encode::Serializer::new(&mut file);
+            let _ = historic_quoting_metrics.serialize(&mut serialiser);
+        }
     }
 
     /// Creates a new `DiskBackedStore` with the given configuration.
